@@ -428,6 +428,23 @@ fn bypass(m: &Model, ctx: &mut Ctx, manglers: &[&FnInfo]) {
             let mangled = mangler_names.iter().any(|mn| text.contains(&format!("{}(", mn)));
             let key = format!("{}|{}", f.name, args.chars().take(60).collect::<String>());
             ctx.oblige("C16.bypass", &key, true);
+            // whatever the audit says about keywords: a name that did not go through a mangler still carries its hyphens, and
+            // format_ident! / Ident::new panic on a text that is no identifier (`&My-Type` is a legal class field name)
+            // (checked per interpolated local: one mangled part does not excuse a raw one)
+            let mut raw_parts: Vec<String> = vec![];
+            for part in text.split(" <- ") {
+                let is_raw = raw_markers.iter().any(|mk| part.contains(mk));
+                let handled = mangler_names.iter().any(|mn| part.contains(&format!("{}(", mn))) || part.contains(".replace('-',\"_\")") || part.contains(".replace(\"-\",\"_\")");
+                // a part that only names other locals (`"{a}_{b}"`) is judged through their initialisers
+                let only_placeholders = part.starts_with('"') && !part.contains('.');
+                if is_raw && !handled && !only_placeholders {
+                    raw_parts.push(part.to_string());
+                }
+            }
+            if !raw_parts.is_empty() {
+                ctx.violate("C16.bypass", &format!("hyphen:{}", crate::report::sanitize_key(&key)), &f.file, line,
+                    &format!("{} builds an identifier from an ASN.1 name that may contain `-` without replacing it (`{}` in `{}`): `format_ident!` panics on `Set1_My-Type`", f.name, raw_parts[0].chars().take(100).collect::<String>(), text.chars().take(100).collect::<String>()));
+            }
             if mangled || benign.contains_key(&crate::report::sanitize_key(&key)) {
                 continue;
             }
